@@ -823,11 +823,12 @@ Proof.
     rewrite (Permutation_length Hb), seq_length. auto.
 Qed.
 
-(* log depth: messages of a component evaluated on a worker thread other than thread 0 are indented one level less *)
-Lemma depth_smp_thread0 base : depth_smp base 0 = depth_serial base.
-Proof. reflexivity. Qed.
-Lemma depth_smp_worker_refuted : exists base th, depth_smp base th <> depth_serial base.
-Proof. exists 0, 1. vm_compute. discriminate. Qed.
+(* log depth: with equal starting counters every thread logs at the serial depth *)
+Lemma depth_smp_consistent (bases : nat -> nat) (th : nat) : bases th = bases 0 -> depth_smp bases th = depth_serial (bases 0).
+Proof. intros H. unfold depth_smp, depth_serial. rewrite H. reflexivity. Qed.
+(* before the repair: one level less on every worker thread other than thread 0 *)
+Lemma depth_smp_unfixed_refuted : exists bases th, bases th = bases 0 /\ depth_smp_unfixed bases th <> depth_serial (bases 0).
+Proof. exists (fun _ => 0), 1. split; [reflexivity|]. vm_compute. discriminate. Qed.
 
 (* statements as they appear in Properties_C12.v *)
 Lemma order_independent (L V : Type) (eqb : L -> L -> bool) :
